@@ -127,9 +127,18 @@ const MULTI_TYPES: [usize; 6] = [4, 5, 6, 7, 8, 9];
 
 pub fn c08(ctx: &Ctx) -> i32 {
     let spec = EnvSpec { check: "c08", flags: E_STEP, env_types: ALL_TYPES.to_vec(), sessions: ctx.tier.pick(60_000, 1_000_000), max_steps: 30, toggle_rate: 0.06, offgrid_rate: 0.0 };
-    let out = run_env_spec(ctx, &spec);
+    let mut out = run_env_spec(ctx, &spec);
+    // a few long sessions (up to 1500 steps in one environment)
+    let lspec = EnvSpec { check: "c08", flags: E_STEP, env_types: ALL_TYPES.to_vec(), sessions: ctx.tier.pick(20, 200), max_steps: 1500, toggle_rate: 0.01, offgrid_rate: 0.0 };
+    let lout = run_env_spec(ctx, &lspec);
+    let long_steps = lout.census.steps;
+    out.violations.extend(lout.violations);
+    out.inconclusive.extend(lout.inconclusive);
+    out.distinct.merge(lout.distinct);
+    out.census.merge(&lout.census);
     let c = &out.census;
     let mut inconclusive = floors(&[
+        ("steps_in_long_sessions", long_steps, 5000),
         ("steps", c.steps, 5000),
         ("instructions", c.instructions, 50_000),
         ("same_batch_targets", c.same_batch_targets, 500),
@@ -146,7 +155,8 @@ pub fn c08(ctx: &Ctx) -> i32 {
     let cov = json!({
         "evaluations": c.steps,
         "distinct_nontrivial": out.distinct.len(),
-        "rule": "cases = simulation steps of seeded environment sessions (10 environment types: Env<1|3|10|24>, MarketEnv<1..4 assets>), each with a G-env batch of new-order / cancel / modify instructions (several per order, targets created in the same batch, crossing prices, market orders), batch size 0..step size, trading toggled between steps; distinct = distinct (batch shape, inferred processing order) hashes; non-trivial = batches with at least 2 instructions",
+        "long_sessions": {"sessions": lspec.sessions, "steps": long_steps, "max_steps_per_session": 1500},
+        "rule": "cases = simulation steps of seeded environment sessions (most with up to 30 steps, a few with up to 1500; 10 environment types: Env<1|3|10|24>, MarketEnv<1..4 assets>), each with a G-env batch of new-order / cancel / modify instructions (several per order, targets created in the same batch, crossing prices, market orders), batch size 0..step size, trading toggled between steps; distinct = distinct (batch shape, inferred processing order) hashes; non-trivial = batches with at least 2 instructions",
         "samples": out.samples,
         "census": c,
         "sessions": c.sessions,
